@@ -16,6 +16,9 @@ RULE = ('uamiv files (all four NAME variants, 1-3 species with names up to 10 ch
         '1-3 steps, begin/end flags with and without ETFLAG, any finite float32 payload incl. denormals and -0): '
         'kind write = library writer bytes vs the Lean encoder and an independent python record walker; kind '
         'read = bytes of the Lean reference encoder read by the library Memmap reader vs the Lean reader model; '
+        'read2 = the same through the legacy record reader uamiv.Read on the files it is meaningful for (AVERAGE/INSTANT, '
+        'odd hour step, all steps within one day, every count >= 2), dimensions/species/data compared; the writer is fed '
+        'float32 and float64 variables; '
         'non-trivial = at least two of nspec, nx*ny, nz, nt are > 1 and pairwise different strides')
 ASSUMPTIONS = ['numpy tofile/memmap and float32 <-> bits conversion are trusted (exercised incl. denormals, -0)',
                'only the uamiv family is covered by this check so far; the other binary formats are listed in DESIGN.md']
@@ -26,8 +29,14 @@ def gen(rng, tier):
     n = 80 if tier == 'quick' else 3000
     out = []
     for i in range(n):
-        c = camx.gen_uamiv(rng)
-        c['kind'] = 'write' if i % 2 == 0 else 'read'
+        if i % 5 == 4:
+            c = camx.gen_uamiv_read_domain(rng)
+            c['kind'] = 'read2'
+        else:
+            c = camx.gen_uamiv(rng)
+            c['kind'] = 'write' if i % 2 == 0 else 'read'
+            if c['kind'] == 'write':
+                c['vdtype'] = rng.choice(['f', 'f', 'd'])
         out.append(c)
     return out
 
@@ -38,7 +47,7 @@ def impl(case):
             b = camx.write_with_library(case)
             return dict(hex=b.hex())
         b = camx.ref_encode_uamiv(case)
-        v = camx.read_with_library(b)
+        v = camx.read_with_library(b, 'read' if case['kind'] == 'read2' else 'memmap')
         v['hex'] = b.hex()
         return v
     except lib.HarnessError:
@@ -124,6 +133,8 @@ def oracle(case, res):
     if res['data'] != want:
         return 'library reads different values from the reference-encoded file'
     wt = lib.show_list(['%d:%d' % (a, b) for a, b in case['tflag']])
+    if case['kind'] == 'read2':
+        return None
     if res['tflag'] != wt:
         return 'library reads TFLAG %s from a reference file encoding %s' % (res['tflag'], wt)
     return None
